@@ -49,8 +49,11 @@ def add_metabolite(model: Model, drug_dvid: int = 1, presystemic: bool = False) 
     >>> model = add_metabolite(model)
 
     """
+    odes = get_and_check_odes(model)
+    if odes.find_compartment("METABOLITE") is not None:
+        raise ValueError("Model already has a metabolite compartment")
+
     if presystemic:
-        odes = get_and_check_odes(model)
         depot = odes.find_depot(model.statements)
         if not depot:
             model = set_first_order_absorption(model)
